@@ -736,16 +736,16 @@ def err3(ctx):
         ctx.missing('reader', 'next_block / open_file not found')
 
 
-@rule('ERR4', ['C15', 'C03'], floor=10, template='error-not-dropped')
+@rule('ERR4', ['C15', 'C03', 'C06'], floor=10, template='error-not-dropped')
 def err4(ctx):
-    """On the write path too, no I/O error is swallowed: a mutating call whose WAL write / sync / GC failed
-    reports the error (otherwise bytes are written that no outcome reports, or an unsynced operation is
-    acknowledged)."""
+    """On the write path too, no I/O error is swallowed: a mutating call whose WAL write / sync / GC / file
+    removal failed reports the error (otherwise bytes are written that no outcome reports, an unsynced operation
+    is acknowledged, or a dead WAL file is left behind by a call that answered Ok).  Bodies shared with recovery
+    (the GC pass) are checked here as well as by ERR1: they serve both properties."""
     from vocab import api_mut
-    rec = {b.id for b in recovery_bodies(ctx)}
     n = 0
     for b in reachable_bodies(ctx, api_mut(ctx)):
-        if b.id in rec or b.generic_dup():
+        if b.generic_dup():
             continue
         for cs in io_result_sites(ctx, b):
             n += 1
